@@ -1,6 +1,7 @@
 package mcp
 
 import (
+	"errors"
 	"context"
 	"encoding/json"
 	"io"
@@ -71,12 +72,30 @@ type zzSrvEnv struct {
 	openHook     func()
 	hangs        int
 	inWrite      bool // a streamableServerConn.Write issued by the harness is in progress
+	bodyDefect   int  // 0 none, 1 unreadable, 2 over the size limit, 3 empty, 4 not JSON-RPC
 }
 
 var zzSrv8 *zzSrvEnv
 
-func zzReadAll(r io.Reader) ([]byte, error)                    { return []byte("body"), nil }
-func zzReadBatch(data []byte) ([]jsonrpc.Message, bool, error) { return zzSrv8.incomingBody, zzSrv8.isBatch, nil }
+// Reading the request body may fail (a dropped connection, a body over the configured limit), the body may be empty or
+// not be JSON-RPC at all.
+func zzReadAll(r io.Reader) ([]byte, error) {
+	switch zzSrv8.bodyDefect {
+	case 1:
+		return nil, errors.New("unexpected EOF")
+	case 2:
+		return nil, &http.MaxBytesError{Limit: 1 << 20}
+	case 3:
+		return []byte{}, nil
+	}
+	return []byte("body"), nil
+}
+func zzReadBatch(data []byte) ([]jsonrpc.Message, bool, error) {
+	if zzSrv8.bodyDefect == 4 {
+		return nil, false, errors.New("invalid character")
+	}
+	return zzSrv8.incomingBody, zzSrv8.isBatch, nil
+}
 func zzEncodeMessage(msg jsonrpc.Message) ([]byte, error)      { return vJSON(msg), nil }
 func zzCrandText() string {
 	s := zzSrv8.streamNames[zzSrv8.nextStream]
@@ -106,6 +125,22 @@ func zzPOST(c *streamableServerConn, w *zzExch, version string, msgs ...jsonrpc.
 	req := (&http.Request{Method: http.MethodPost, Header: http.Header{}, Body: zzBodyStub{}}).WithContext(ctx)
 	if version != "" {
 		req.Header.Set(protocolVersionHeader, version)
+	}
+	c.servePOST(w, req)
+}
+
+func zzPOSTWith(c *streamableServerConn, w *zzExch, version string, tweak func(*http.Request), msgs ...jsonrpc.Message) {
+	zzSrv8.incomingBody = msgs
+	ctx := context.Background()
+	if version != "" {
+		ctx = context.WithValue(ctx, protocolVersionContextKey{}, version)
+	}
+	req := (&http.Request{Method: http.MethodPost, Header: http.Header{}, Body: zzBodyStub{}}).WithContext(ctx)
+	if version != "" {
+		req.Header.Set(protocolVersionHeader, version)
+	}
+	if tweak != nil {
+		tweak(req)
 	}
 	c.servePOST(w, req)
 }
@@ -591,8 +626,16 @@ func zzC02Prevalidation() {
 		c = zzConnect(nil, true, false) // the new protocol is served by stateless endpoints
 	}
 	var bad *jsonrpc.Request
-	kind := vChoice("defect", 4)
+	kind := vChoice("defect", 10)
+	good0 := zzCall(8, "ping")
 	switch kind {
+	case 4, 5, 6, 7: // the body cannot be read, is over the size limit, is empty, is not JSON-RPC
+		env.bodyDefect = kind - 3
+		bad = good0
+	case 8: // a POST may not carry Last-Event-ID
+		bad = good0
+	case 9: // batching is gone from 2025-06-18 on
+		bad = good0
 	case 0: // unknown method, as a call
 		bad = &jsonrpc.Request{ID: jsonrpc2.Int64ID(5), Method: "no/such-method", Params: vJSON(&PingParams{})}
 	case 1: // unknown method, as a notification
@@ -615,8 +658,25 @@ func zzC02Prevalidation() {
 		}
 	}
 	w := zzNewExch("post")
-	zzPOST(c, w, version, msgs...)
+	switch kind {
+	case 8:
+		zzPOSTWith(c, w, version, func(r *http.Request) { r.Header.Set(lastEventIDHeader, "st1_0") }, msgs...)
+	case 9:
+		if !env.isBatch {
+			env.isBatch = true
+			msgs = []jsonrpc.Message{good0, zzCall(9, "ping")}
+		}
+		if version < protocolVersion20250618 {
+			version = protocolVersion20250618
+		}
+		zzPOSTWith(c, w, version, nil, msgs...)
+	default:
+		zzPOST(c, w, version, msgs...)
+	}
 	vAssert(w.code >= 400 && w.code < 500, "C02.invalid-request-refused-with-4xx")
+	if kind == 5 {
+		vAssert(w.code == http.StatusRequestEntityTooLarge, "C12.body-over-the-limit-413")
+	}
 	if modern && kind == 0 {
 		vAssert(w.code == http.StatusNotFound, "C02.unknown-method-404-under-2026-07-28")
 	}
